@@ -7,7 +7,8 @@ CFG = cfg('C08', extract='Ex_C08', driver='c08',
                're-serialisation identical; the same bodies under foreign framings (old-format 1/2/4-octet, 5-octet, partial chunkings) and the '
                "repository's 56 GnuPG-made packet fixtures must normalise once (header length == body length, same body, fixed point); "
                'model correspondence (extracted format terms) on every canonical packet of a modelled type + model-encoded packets with generated '
-               'values fed to PGPy; old-format key grown by protect(). non-trivial = parsed by the implementation; distinct by packet octets',
+               'values fed to PGPy; old-format key grown by protect(); generated foreign signature packets (hashed and unhashed areas with every legal length '
+               'form, multi-octet flags, unknown types, any charset) must re-export with header length == body length, the same field values, fixed point. non-trivial = parsed by the implementation; distinct by packet octets',
           trusted=['Model/Packets.v format terms (hand-written from packets.py / fields.py)'],
           assumptions=['compression codecs (zlib, bz2) are primitives; ciphertext bodies are opaque octets for the codec'])
 
@@ -17,6 +18,7 @@ TEXT = ('Rocq theorems (Props/C08.v, closed): one generic round-trip theorem dec
         'the trailing data; every packet type of Model/Packets.v (62 format terms: PKESK, signature v4 with subpacket areas, SKESK, one-pass, public '
         'keys/subkeys of 6 algorithms, compressed, SED, marker, literal, user id, user attribute, SEIPD, MDC, opaque) is a self-delimiting instance, '
         'and the emitted header carries exactly the body length. The foreign-input half (old-format / partial framings, GnuPG fixtures) is decided on '
-        'the implementation by the correspondence run. Known finding: DSA/ElGamal secret keys with S2K usage 255 (not exercised).',
+        'the implementation by the correspondence run, and for the two subpacket areas of a signature by Model/SubArea.v: an accepted packet\'s areas '
+        'are re-exported octet for octet whatever encodings the producer chose (C08_subpacket_areas_verbatim, _fixed_point; the pre-repair rule refuted). Known finding: DSA/ElGamal secret keys with S2K usage 255 (not exercised).',
         'DESIGN.md 5 C08',
         'machine-checked proof in Rocq (Coq 8.16.1) + extracted-model correspondence + implementation round-trip enumeration')
